@@ -300,6 +300,10 @@ def universes(tier):
     cdf = [("i32", "0i32", "8i32"), ("String", "String::new()", '"d".to_string()'), ("bool", "false", "true"),
            (("opt", "i32"), "Some(0i32)", "Some(8i32)"), (("opt", "String"), "Some(String::new())", 'Some("x".to_string())'),
            (("opt", "bool"), "Some(false)", "Some(true)"), (("vec", "u8"), "vec![]", "vec![1u8]"), (("opt", ("vec", "u8")), "Some(vec![])", "Some(vec![1u8])"),
+           (("set", "String"), "std::collections::BTreeSet::new()", '["alpha".to_string(), "beta".to_string()].into_iter().collect()'),
+           (("set", "i32"), "std::collections::BTreeSet::new()", "[3i32, 1i32, 2i32].into_iter().collect()"),
+           (("map", "i32"), "std::collections::BTreeMap::new()", '[("k".to_string(), 1i32)].into_iter().collect()'),
+           (("tuple", "i32", "String"), '(0i32, String::new())', '(7i32, "t".to_string())'), (("arr", "i32"), "[0i32, 0i32]", "[1i32, 2i32]"),
            # defaults that sit exactly on a limit of the member's integer type
            ("u8", "u8::MIN", "u8::MAX"), ("i8", "i8::MIN", "i8::MAX"), ("u32", "1u32", "u32::MAX"), ("i64", "i64::MIN", "i64::MAX"), ("u64", "u64::MAX - 1", "u64::MAX"),
            ("i16", "i16::MIN", "i16::MAX"), (("opt", "u16"), "Some(u16::MAX)", "Some(u16::MIN)")]
